@@ -109,6 +109,9 @@ struct Hist {
     advance: u32,
     /// message m1 is already approved (1) or approved and executed (2) before the submission
     pre: u8,
+    /// the gateway is constructed with two initial sets: 1 = [other, set under test],
+    /// 2 = [set under test, other] (the set under test is then one epoch old)
+    init: u8,
 }
 
 struct Ctx {
@@ -160,15 +163,18 @@ impl C01 {
             ]);
         }
         let hists = [
-            Hist { retention: 0, rotations: 0, dup_attempt: false, advance: 0, pre: 0 },
-            Hist { retention: 1, rotations: 1, dup_attempt: false, advance: 0, pre: 0 },
-            Hist { retention: 0, rotations: 1, dup_attempt: false, advance: 0, pre: 0 },
-            Hist { retention: 2, rotations: 3, dup_attempt: false, advance: 0, pre: 0 },
-            Hist { retention: 2, rotations: 2, dup_attempt: false, advance: 0, pre: 0 },
-            Hist { retention: 0, rotations: 0, dup_attempt: false, advance: 20, pre: 0 },
-            Hist { retention: 1, rotations: 1, dup_attempt: false, advance: 1000, pre: 0 },
-            Hist { retention: 0, rotations: 0, dup_attempt: false, advance: 0, pre: 1 },
-            Hist { retention: 1, rotations: 1, dup_attempt: false, advance: 0, pre: 2 },
+            Hist { retention: 0, rotations: 0, dup_attempt: false, advance: 0, pre: 0, init: 0 },
+            Hist { retention: 1, rotations: 1, dup_attempt: false, advance: 0, pre: 0, init: 0 },
+            Hist { retention: 0, rotations: 1, dup_attempt: false, advance: 0, pre: 0, init: 0 },
+            Hist { retention: 2, rotations: 3, dup_attempt: false, advance: 0, pre: 0, init: 0 },
+            Hist { retention: 2, rotations: 2, dup_attempt: false, advance: 0, pre: 0, init: 0 },
+            Hist { retention: 0, rotations: 0, dup_attempt: false, advance: 20, pre: 0, init: 0 },
+            Hist { retention: 1, rotations: 1, dup_attempt: false, advance: 1000, pre: 0, init: 0 },
+            Hist { retention: 0, rotations: 0, dup_attempt: false, advance: 0, pre: 1, init: 0 },
+            Hist { retention: 1, rotations: 1, dup_attempt: false, advance: 0, pre: 2, init: 0 },
+            Hist { retention: 0, rotations: 0, dup_attempt: false, advance: 0, pre: 0, init: 1 },
+            Hist { retention: 0, rotations: 0, dup_attempt: false, advance: 0, pre: 0, init: 2 },
+            Hist { retention: 1, rotations: 0, dup_attempt: false, advance: 0, pre: 0, init: 2 },
         ];
         let mut cfgs = vec![];
         for s in &sets {
@@ -177,7 +183,7 @@ impl C01 {
                 cfgs.push((s.clone(), *h, hi == 0 || s.weights.len() <= 3));
             }
         }
-        cfgs.push((scfg(&[1], 1), Hist { retention: 0, rotations: 0, dup_attempt: true, advance: 0, pre: 0 }, true));
+        cfgs.push((scfg(&[1], 1), Hist { retention: 0, rotations: 0, dup_attempt: true, advance: 0, pre: 0, init: 0 }, true));
         C01 { cfgs, thorough }
     }
 
@@ -223,8 +229,8 @@ impl Scenario for C01 {
     fn config_label(&self, c: usize) -> String {
         let (s, h, full) = &self.cfgs[c];
         format!(
-            "weights {:?} threshold {} retention {} rotations-after {} ledgers-after {} m1-known-before {} full-alphabet {}",
-            s.weights, s.threshold, h.retention, h.rotations, h.advance, h.pre, full
+            "weights {:?} threshold {} retention {} rotations-after {} ledgers-after {} m1-known-before {} initial-list-variant {} full-alphabet {}",
+            s.weights, s.threshold, h.retention, h.rotations, h.advance, h.pre, h.init, full
         )
     }
     fn world<'a>(&self, ctx: &'a Ctx) -> &'a World {
@@ -244,7 +250,13 @@ impl Scenario for C01 {
             threshold: s.threshold,
             nonce: 7,
         };
-        let gw = register_gateway(&w, None, &owner, &operator, &DOMAIN, 0, h.retention, &[set.raw(&keys)]);
+        let other = SetSpec { signers: vec![(EXTRA_KEY, 1)], threshold: 1, nonce: 90 };
+        let initial: Vec<RawSet> = match h.init {
+            1 => vec![other.raw(&keys), set.raw(&keys)],
+            2 => vec![set.raw(&keys), other.raw(&keys)],
+            _ => vec![set.raw(&keys)],
+        };
+        let gw = register_gateway(&w, None, &owner, &operator, &DOMAIN, 0, h.retention, &initial);
         if h.pre > 0 {
             let m1 = msg_scval(
                 &Msg { chain: "src".into(), id: "m1".into(), src: "sender".into(), dest: 0, payload_hash: [1; 32] },
@@ -262,7 +274,7 @@ impl Scenario for C01 {
             }
         }
         // rotations through the real entry point, each authorised by the then-latest set
-        let mut latest = set.clone();
+        let mut latest = if h.init == 2 { other.clone() } else { set.clone() };
         for r in 0..h.rotations {
             let next = SetSpec { signers: vec![(EXTRA_KEY, 1)], threshold: 1, nonce: 100 + r as u8 };
             let raw = next.raw(&keys);
@@ -280,7 +292,7 @@ impl Scenario for C01 {
             w.set_seq(w.seq() + h.advance);
             w.set_time(w.now() + 5 * h.advance as u64);
         }
-        let retained = h.rotations as u64 <= h.retention;
+        let retained = (h.rotations as u64 + if h.init == 2 { 1 } else { 0 }) <= h.retention;
         let mut set = set;
         let mut skip = false;
         if h.dup_attempt {
@@ -635,7 +647,7 @@ fn main() {
     main_for(|tier| {
         let s = C01::new(tier == "thorough");
         let mut o = Opts::new(tier, 1);
-        o.rule = "one submission from each base state; base states = 11 (quick) / 17 (thorough, adds 4-signer sets) signer configurations with boundary weights/thresholds x 9 histories (retention 0-2, 0-3 real rotations after the set under test, 0 / 20 / 1000 ledgers passing, message m1 already approved / already executed before the submission). Per base state: EVERY vector of per-signer status from {unsigned, valid, other domain separator, other command kind, other batch, other signer-set hash, other key, bit-flipped R, bit-flipped s} (9^N on the fresh gateway, 3^N on the histories) through approve_messages and validate_proof; 10 tamperings of the declared set x {signatures over the true set's digest, over the tampered set's digest}; batches of 1, 2 and 2-with-duplicate-id, each also submitted with one field / one message changed relative to the signed batch. Oracle: independent predicate (set installed and retained, valid weight >= threshold) with independently recomputed digests".into();
+        o.rule = "one submission from each base state; base states = 11 (quick) / 17 (thorough, adds 4-signer sets) signer configurations with boundary weights/thresholds x 12 histories (constructed with one or two initial sets in either order, retention 0-2, 0-3 real rotations after the set under test, 0 / 20 / 1000 ledgers passing, message m1 already approved / already executed before the submission). Per base state: EVERY vector of per-signer status from {unsigned, valid, other domain separator, other command kind, other batch, other signer-set hash, other key, bit-flipped R, bit-flipped s} (9^N on the fresh gateway, 3^N on the histories) through approve_messages and validate_proof; 10 tamperings of the declared set x {signatures over the true set's digest, over the tampered set's digest}; batches of 1, 2 and 2-with-duplicate-id, each also submitted with one field / one message changed relative to the signed batch. Oracle: independent predicate (set installed and retained, valid weight >= threshold) with independently recomputed digests".into();
         (s, o)
     });
 }
